@@ -285,6 +285,33 @@ theorem linear_hash_set_equivariant (H : TupleHash) (f : Nat → Nat) (m m' : Mo
 example : ∃ hs hs', linearHashSet Py.pyHashTuple exMol 1 3 2 = .ok hs ∧ linearHashSet Py.pyHashTuple exMol' 1 3 2 = .ok hs' ∧
     hs.length = 9 ∧ ∀ x ∈ hs, x ∈ hs' := ⟨_, _, rfl, rfl, by decide, by decide⟩
 
+/-- **fragments_iteration_order_free** — determinism under the iteration order of the `_chains` *set*: in whatever order
+    `for frag in self._chains(…)` meets the paths (any permutation `cs'` of `cs`), the loop of `_fragments` raises nothing
+    and builds a dict with the same keys and the same multiplicities, hence `linear_hash_set` has the same members. -/
+theorem fragments_iteration_order_free (H : TupleHash) (m : Mol) (hwf : m.WF = true) (cs cs' : List Path)
+    (hs : ∀ c ∈ cs, SimplePath m c) (hp : cs'.Perm cs) :
+    ∃ d d', cs.foldlM (fragStep (atomIdentifiers H m) m) [] = .ok d ∧
+      cs'.foldlM (fragStep (atomIdentifiers H m) m) [] = .ok d' ∧
+      (∀ K ps, (K, ps) ∈ d → ∃ ps', (K, ps') ∈ d' ∧ ps'.length = ps.length) ∧
+      (∀ K ps', (K, ps') ∈ d' → ∃ ps, (K, ps) ∈ d ∧ ps.length = ps'.length) ∧
+      ∀ nbp x, x ∈ hashesOfDict H nbp d' ↔ x ∈ hashesOfDict H nbp d := by
+  have hs' : ∀ c ∈ cs', SimplePath m c := fun c hc => hs c (hp.mem_iff.mp hc)
+  have hcount : ∀ K, (cs'.filter fun c => fragKey H m c = K).length = (cs.filter fun c => fragKey H m c = K).length :=
+    fun K => (hp.filter _).length_eq
+  have t1 := fun K ps hm => dict_transfer H m m cs cs' hcount K ps hm
+  have t2 := fun K ps' hm => dict_transfer H m m cs' cs (fun K => (hcount K).symm) K ps' hm
+  refine ⟨_, _, foldlM_fragStep H m hwf cs [] hs, foldlM_fragStep H m hwf cs' [] hs', t1, t2, ?_⟩
+  intro nbp x
+  rw [multiplicity_cap, multiplicity_cap]
+  constructor
+  · rintro ⟨K, ps', hm, cnt, hc1, hc2, rfl⟩
+    obtain ⟨ps, hps, hl⟩ := t2 K ps' hm
+    exact ⟨K, ps, hps, cnt, by omega, hc2, rfl⟩
+  · rintro ⟨K, ps, hm, cnt, hc1, hc2, rfl⟩
+    obtain ⟨ps', hps, hl⟩ := t1 K ps hm
+    exact ⟨K, ps', hps, cnt, by omega, hc2, rfl⟩
+
+
 /-- the bit set depends on the hash set only through its members -/
 theorem active_bits_of_same_members (length : Nat) (nab : Int) (hs hs' : List Int) (h : ∀ x, x ∈ hs' ↔ x ∈ hs) (b : Nat) :
     b ∈ activeBits length nab hs' ↔ b ∈ activeBits length nab hs := by
